@@ -216,23 +216,7 @@ def run(model: RepoModel, rep, tier: str):
                                                    "the state-level kill set is no longer the older copies with the same state id")
 
     # ------------------------------------------------------------------ R3
-    csc = cs.classes.get("CallSite")
-    if csc is None:
-        raise AnalysisError("CallSite vanished")
-    ids = [n.targets[0].attr for n in walk_no_nested(csc.methods["__init__"].node) if isinstance(n, ast.Assign) and is_self_attr(n.targets[0])]
-    for meth in ("__eq__", "__hash__"):
-        f = csc.methods.get(meth)
-        key = f"common_structs.py::CallSite.{meth}::involves caller, call statement and callee"
-        if f is None:
-            rep.violation("C09.R3", key, "common_structs.py", csc.node.lineno, f"CallSite has no {meth}: contexts compare by identity")
-            continue
-        used = {n.attr for n in walk_no_nested(f.node) if isinstance(n, ast.Attribute) and is_self_attr(n)}
-        if set(ids) <= used:
-            rep.holds("C09.R3", key, "common_structs.py", f.node.lineno, f"uses {sorted(ids)}")
-        else:
-            rep.violation("C09.R3", key, "common_structs.py", f.node.lineno,
-                          f"CallSite.{meth} ignores {sorted(set(ids) - used)}: two call sites that differ only there share one context, so a value "
-                          f"passed at one call site appears in the result of the other")
+    check_callsite_identity(model, rep, "C09.R3")
     cfc = cs.classes.get("ComputeFrame")
     key = "common_structs.py::ComputeFrame::context is the frame's call site"
     ini = cfc.methods.get("__init__") if cfc else None
@@ -316,6 +300,29 @@ def run(model: RepoModel, rep, tier: str):
     # union over paths / over argument states: shared with C08.R4
     from .c08 import check_accumulating_loops
     check_accumulating_loops(model, rep, "C09.R4")
+
+
+def check_callsite_identity(model: RepoModel, rep, RID: str):
+    """CallSite equality and hash involve caller, call statement and callee (shared by C09.R3 and C15.R7: the hash is also the storage
+    key of parameter mappings and of the phase-3 per-context items)."""
+    cs = model.module("common_structs.py")
+    csc = cs.classes.get("CallSite")
+    if csc is None:
+        raise AnalysisError("CallSite vanished")
+    ids = [n.targets[0].attr for n in walk_no_nested(csc.methods["__init__"].node) if isinstance(n, ast.Assign) and is_self_attr(n.targets[0])]
+    for meth in ("__eq__", "__hash__"):
+        f = csc.methods.get(meth)
+        key = f"common_structs.py::CallSite.{meth}::involves caller, call statement and callee"
+        if f is None:
+            rep.violation(RID, key, "common_structs.py", csc.node.lineno, f"CallSite has no {meth}: contexts compare by identity")
+            continue
+        used = {n.attr for n in walk_no_nested(f.node) if isinstance(n, ast.Attribute) and is_self_attr(n)}
+        if set(ids) <= used:
+            rep.holds(RID, key, "common_structs.py", f.node.lineno, f"uses {sorted(ids)}")
+        else:
+            rep.violation(RID, key, "common_structs.py", f.node.lineno,
+                          f"CallSite.{meth} ignores {sorted(set(ids) - used)}: two call sites that differ only there share one context, so a value "
+                          f"passed at one call site appears in the result of the other")
 
 
 def _c09_widening(x, guards, pre, fnode=None):
